@@ -136,7 +136,11 @@ func evalName(node *jparse.NameNode, data reflect.Value, env *environment) (refl
 
 	switch {
 	case jtypes.IsStruct(data):
-		v = data.FieldByName(node.Value)
+		// Only exported fields are data. (reflect panics
+		// when the value of an unexported field is used.)
+		if f := data.FieldByName(node.Value); f.IsValid() && f.CanInterface() {
+			v = f
+		}
 	case jtypes.IsMap(data):
 		v = data.MapIndex(reflect.ValueOf(node.Value))
 	case jtypes.IsArray(data):
